@@ -196,3 +196,49 @@ func (p *pkgInfo) goStmts() []string {
 	sort.Strings(out)
 	return out
 }
+
+// nonFresh reduces a write set to the deduplicated "func | origin" pairs whose
+// origin is not a value created inside the call.
+func nonFresh(ws []string) []string {
+	seen := map[string]bool{}
+	var out []string
+	for _, w := range ws {
+		parts := strings.Split(w, " | ")
+		if len(parts) != 3 || parts[2] == "fresh" {
+			continue
+		}
+		k := parts[0] + " | " + parts[2]
+		if !seen[k] {
+			seen[k] = true
+			out = append(out, k)
+		}
+	}
+	sort.Strings(out)
+	return out
+}
+
+// funcNames lists every function and method of the package as Recv.Name.
+func (p *pkgInfo) funcNames() []string {
+	var out []string
+	for _, f := range p.files {
+		for _, d := range f.Decls {
+			fd, ok := d.(*ast.FuncDecl)
+			if !ok || fd.Body == nil {
+				continue
+			}
+			name := fd.Name.Name
+			if fd.Recv != nil && len(fd.Recv.List) == 1 {
+				t := fd.Recv.List[0].Type
+				if s, ok := t.(*ast.StarExpr); ok {
+					t = s.X
+				}
+				if id, ok := t.(*ast.Ident); ok {
+					name = id.Name + "." + name
+				}
+			}
+			out = append(out, name)
+		}
+	}
+	sort.Strings(out)
+	return out
+}
